@@ -117,10 +117,32 @@ class Push:
         return "Push(%s bb%d %s %s item=%r)" % (self.fn, self.bb, self.kind, self.variant, self.item)
 
 
-def push_events(prog, fnkey, ctors=None):
+def builder_root(prog, fk):
+    """A list builder split into private stages (`split_term`, `add_emoji_suggestions`, …): the function a rule should look at is the one the
+    stages were split off — climb from fk through private functions with exactly one call site.  Returns (root key, stages climbed through)."""
+    prog.callgraph()
+    climbed = []
+    for _ in range(6):
+        f = prog.fns.get(fk) or {}
+        imp = f.get("impl") or {}
+        cs = prog.call_sites.get(fk, [])
+        if len(cs) != 1 or imp.get("trait") or f.get("no_mangle") or f.get("kind") == "Closure" or cs[0][0] == fk:
+            break
+        caller = cs[0][0]
+        cimp = (prog.fns.get(caller) or {}).get("impl") or {}
+        if (cimp.get("self") or None) != (imp.get("self") or None) or prog.fns[caller].get("kind") == "Closure":
+            break                       # only within one type's impl (a builder and its own stages)
+        if len(f["mir"]["blocks"]) > 120:
+            break
+        climbed.append(fk)
+        fk = caller
+    return fk, climbed
+
+
+def push_events(prog, fnkey, ctors=None, body=None):
     """All pushes into a Vec<Rank> performed by fnkey (directly or via an extend closure)."""
     ctors = ctors or rank_ctors(prog)
-    b = prog.body(fnkey)
+    b = body if body is not None else prog.body(fnkey)
     out = []
 
     def classify(p, rank_e, body):
@@ -153,6 +175,10 @@ def push_events(prog, fnkey, ctors=None):
 
     for (bb, t) in b.calls():
         n = callee_name(t)
+        if n.endswith("::collect") and not t["dest"]["p"] and t["dest"]["ty"] == "std::vec::Vec<suggestion::Rank>" and t["args"]:
+            # a list *started* from an iterator (`opt.map(|x| Rank::…).into_iter().collect()`): the same event as extending an empty list
+            t = dict(t, args=[{"k": "copy", "place": {"l": t["dest"]["l"], "p": [], "ty": "&mut std::vec::Vec<suggestion::Rank>"}}, t["args"][0]])
+            n = "::extend"
         vec_ty = t["args"][0]["place"]["ty"] if t["args"] and t["args"][0]["k"] != "const" else ""
         if "Vec<suggestion::Rank>" not in vec_ty and "Vec<T>" not in vec_ty:
             continue
@@ -234,13 +260,33 @@ def effective_guards(prog, body, bb):
     out = list(guards_of(body, bb))
     key = body.key
     f = prog.fns.get(key)
-    while f is not None and f.get("kind") == "Closure":
-        cc = closure_creation(prog, key)
-        if not cc:
+    for _ in range(6):
+        if f is None:
             break
-        pb, i, j, s, ups = cc
-        out.extend(guards_of(pb, i))
-        key = pb.key
+        if f.get("kind") == "Closure":
+            cc = closure_creation(prog, key)
+            if not cc:
+                break
+            pb, i, j, s, ups = cc
+            out.extend(guards_of(pb, i))
+            key = pb.key
+            f = prog.fns.get(key)
+            continue
+        # a private stage of a builder (an inherent method / free function with exactly one call site): whatever guards the call guards the stage
+        prog.callgraph()
+        cs = prog.call_sites.get(key, [])
+        imp = f.get("impl") or {}
+        if len(cs) != 1 or imp.get("trait") or f.get("no_mangle") or f.get("vis") == "pub":
+            break
+        caller, cbb, ct = cs[0]
+        if caller == key:
+            break
+        cimp = (prog.fns.get(caller) or {}).get("impl") or {}
+        if (cimp.get("self") or None) != (imp.get("self") or None) or (prog.fns.get(caller) or {}).get("kind") == "Closure":
+            break                       # only a builder's own stages (same type), not the event method that calls the builder
+        cb = prog.body(caller)
+        out.extend(guards_of(cb, cbb))
+        key = caller
         f = prog.fns.get(key)
     return out
 
